@@ -318,13 +318,17 @@ impl FromStr for PartialDSym {
             }
 
             let mut dsym = PartialDSym::from(dset);
+            let mut seen = vec![false; dsym.orbit_rs.len()];
 
             for i in 0..spec.dim {
                 let ms_i = spec.m_spec.get(i).unwrap();
                 let mut k = 0;
 
                 for d in 1..=spec.size {
-                    if dsym.v(i, i + 1, d) == Some(0) {
+                    let orbit = dsym.orbit_index[i][d];
+
+                    if !seen[orbit] {
+                        seen[orbit] = true;
                         let &m = ms_i.get(k)
                             .ok_or("incomplete degree spec".to_string())?;
                         let r = dsym.r(i, i + 1, d).unwrap(); 
